@@ -211,11 +211,21 @@ def _r07f(cx, repo):
         l = cp[0]
         k = norm(l.target.elts[0]) if isinstance(l.target, ast.Tuple) else None
         sts = [n for n in ast.walk(l) if isinstance(n, ast.Assign) and norm(n.targets[0]) == f"self.bn_map[{k}]"]
-        ok = len(sts) == 1 and not any(isinstance(x, (ast.Break, ast.Continue)) for x in ast.walk(l))
-        if ok and parent(sts[0]) is not l:
-            # a guard is harmless only if it cannot drop a number: "not filed yet" on the same map and key
-            g = parent(sts[0])
-            ok = isinstance(g, ast.If) and parent(g) is l and norm(g.test) in (f"{k} not in self.bn_map", f"not {k} in self.bn_map") and sts[0] in g.body
+        ok = len(sts) == 1 and not any(isinstance(x, ast.Break) for x in ast.walk(l))
+        if ok:
+            # a guard is harmless only if it cannot drop a number: "not filed yet" on the same map and key - as the condition
+            # of the store or as an early `continue` (however spelled); nothing else may stand between an entry and its store
+            from sa.guards import canon_facts, canon_test
+            filed = ("in", k, "self.bn_map", True)
+            not_filed = ("in", k, "self.bn_map", False)
+            ok = canon_facts(sts[0], stop=l) <= {not_filed}
+            for c_ in [x for x in ast.walk(l) if isinstance(x, ast.Continue)]:
+                g = parent(c_)
+                ok = ok and isinstance(g, ast.If) and parent(g) is l and g.body == [c_] and canon_test(g.test) == {filed}
+            blk = sts[0]
+            while parent(blk) is not l:
+                blk = parent(blk)
+                ok = ok and isinstance(blk, ast.If) and sts[0] in blk.body
     cx.ob("R07f", cp[0] if cp else init, ok, "every entry of a branch's map is copied into the graph's map" if ok else "the graph's build-number map does not receive every entry of the branch map")
     look = [c for m, q, f in repo.functions({REL}) for c in walk_local(f) if isinstance(c, ast.Call) and call_name(c) == "get" and norm(c.func.value).endswith("bn_map") ]
     look += [n for m, q, f in repo.functions({REL}) for n in walk_local(f) if isinstance(n, ast.Subscript) and isinstance(n.ctx, ast.Load) and norm(n.value).endswith(".bn_map")]
